@@ -176,6 +176,8 @@ class Render:
             return '(\n[(' + ', '.join(elt) + ',)' + gens + '])'
         if form == 1:
             return '(\n{(' + ', '.join(elt) + ',)' + gens + '})'
+        if self.v(s + 19, 2):  # dict comprehension: the element expressions sit in the key or in the value
+            return '(\n{(' + ', '.join(elt) + ',): 0' + gens + '})'
         return '(\n{' + mark + ': (' + ', '.join(elt[1:] + ['0']) + ',)' + gens + '})'
 
     # -- statements ----------------------------------------------------------------------------------------------------
